@@ -535,19 +535,49 @@ func violationsBeforeCookie(si *stepInfo) bool {
 		}
 		return locOf(name)
 	}
+	// a cookie read before a LATER required cookie is in the same situation
+	lastReq := ""
+	if si.M.HTTP != nil && si.M.Payload != nil {
+		for _, e := range si.M.HTTP.Cookies {
+			for _, f := range si.Design.AllFields(&si.M.Payload.T) {
+				if f.Name == e.Attr && f.Required {
+					lastReq = e.Attr
+				}
+			}
+		}
+	}
+	earlierCookie := func(name string) bool {
+		if si.M.HTTP == nil || lastReq == "" || name == lastReq {
+			return false
+		}
+		for _, e := range si.M.HTTP.Cookies {
+			if e.Attr == lastReq {
+				return false
+			}
+			if e.Attr == name {
+				return true
+			}
+		}
+		return false
+	}
+	_ = earlierCookie
 	isParam := func(l string) bool { return l == "path" || l == "query" || l == "header" }
 	if si.DecodeFail {
 		site := strings.TrimPrefix(si.Site, ".")
 		if i := strings.IndexAny(site, ".[{"); i >= 0 {
 			site = site[:i]
 		}
-		return isParam(locOf(site)) || (site == "" && isParam(rootLoc))
+		return isParam(locOf(site)) || (site == "" && isParam(rootLoc)) || earlierCookie(site)
 	}
 	if len(si.Expected) == 0 {
 		return false
 	}
 	for _, v := range si.Expected {
-		if !isParam(topLoc(v.Path)) {
+		rest := strings.TrimPrefix(v.Path, "payload.")
+		if i := strings.IndexAny(rest, ".["); i >= 0 {
+			rest = rest[:i]
+		}
+		if !isParam(topLoc(v.Path)) && !earlierCookie(rest) {
 			return false
 		}
 	}
